@@ -404,7 +404,7 @@ class TaborProgram(ProgramEntry):
             raise TaborException('TaborProgram only supports {} markers'.format(device_properties['chan_per_part']))
         used_channels = frozenset(set(channels).union(markers) - {None})
 
-        if program.repetition_count > 1 or program.depth() == 0:
+        if program.repetition_count > 1 or program.volatile_repetition is not None or program.depth() == 0:
             program.encapsulate()
 
         if mode is None:
